@@ -1170,7 +1170,7 @@ class Interp:
         outs = []
         results = self.inline(test, s) if isinstance(test, ast.Call) else None
         for s2, v in (results if results is not None else self.expr(test, s)):
-            t = self.truth(v)
+            t = self.truth_in(v, s2)
             if t is not None:
                 if self.record_conds:
                     self.emit(s2, ('cond', _text(test), t))
@@ -1207,6 +1207,16 @@ class Interp:
                         if is_concrete(v) and not isinstance(v, (list, dict)):
                             if s.env.get(_text(l), TOP) is TOP:
                                 s.env[_text(l)] = v
+
+    def truth_in(self, v, s):
+        """Truth value of v in state s; a heap object whose class defines __len__ (or __iter__) is true iff non-empty."""
+        if self.heap and isinstance(v, Obj) and isinstance(v.cls, M.ClassInfo) and self.model is not None \
+           and (self.model.find_method(v.cls, '__len__') is not None or self.model.find_method(v.cls, '__bool__') is not None):
+            items = self.materialize(v, s)
+            if isinstance(items, list):
+                return len(items) > 0
+            return None
+        return self.truth(v)
 
     def truth(self, v):
         if v is TOP or isinstance(v, M.Unknown):
@@ -1390,6 +1400,14 @@ class Interp:
                 if not isinstance(base, M._StringLetters):
                     return base[lo:hi:st]
             return TOP
+        if self.heap and isinstance(base, Obj) and isinstance(base.cls, M.ClassInfo) and '__items' not in base.attrs and self.model is not None \
+           and isinstance(n.ctx, ast.Load) and self.inline_depth > 0 and len(self._inline_stack) < self.inline_depth \
+           and self.model.find_method(base.cls, '__getitem__') is not None:
+            call = ast.Call(func=ast.Attribute(value=n.value, attr='__getitem__', ctx=ast.Load()), args=[n.slice], keywords=[])
+            ast.copy_location(call, n)
+            ast.copy_location(call.func, n)
+            res = self._inline_single(call, s)
+            return res[0] if res is not None else TOP
         idx = self.ev(n.slice, s)
         if isinstance(base, Obj) and isinstance(base.attrs.get('__items'), dict) and is_concrete(idx):
             items = base.attrs['__items']
@@ -1484,7 +1502,7 @@ class Interp:
                 out.append(elt(s))
                 return True
             g = n.generators[i]
-            it = self.ev(g.iter, s)
+            it = self.materialize(self.ev(g.iter, s), s)
             if isinstance(it, Iter):
                 it = it.items[it.pos:]
             if isinstance(it, dict):
@@ -1569,7 +1587,7 @@ class Interp:
     def ev_UnaryOp(self, n, s):
         v = self.ev(n.operand, s)
         if isinstance(n.op, ast.Not):
-            t = self.truth(v)
+            t = self.truth_in(v, s)
             return TOP if t is None else (not t)
         if is_concrete(v):
             try:
@@ -1791,6 +1809,8 @@ class Interp:
                 return Iter(args[0])
             if n.func.id == 'len' and isinstance(args[0], list):
                 return len(args[0])
+        if isinstance(n.func, ast.Name) and n.func.id not in s.env and n.func.id in _PURE and any(isinstance(a, Iter) for a in args):
+            args = [list(a.items[a.pos:]) if isinstance(a, Iter) else a for a in args]      # a generator handed to all()/any()/list()...
         if isinstance(n.func, ast.Name) and n.func.id not in s.env:
             b = _PURE.get(n.func.id)
             if b is not None and all(is_concrete(a) for a in args) and not kwargs:
